@@ -3,7 +3,8 @@
 
   Property theorems only.  Model: Cello/Config.lean.  Source-derived tables: CelloGen/Cfg.lean (translate/g_cfg.py).
   Helper lemmas: CelloProofs/Lemmas/Cfg.lean, CfgFull.lean, CfgKeep.lean (keep programs: containers as the sole path to
-  collector-managed objects; the collector is Cello/Heap.lean's, proved complete in C01).
+  collector-managed objects; the collector is Cello/Heap.lean's, proved complete in C01), CfgGuard.lean (guards over the
+  allocation class along the functions an in-place edit runs).
 -/
 import Cello.Config
 import CelloGen.Cfg
@@ -103,6 +104,15 @@ theorem C18_payload_independent_of_header (cfg : Cfg) (ty : String) (c : AllocCl
   Every `if (cond) throw(…)` inside `#if CELLO_ALLOC_CHECK == 1` is regenerated from src/*.c as a term (`CelloGen.Cfg.guards`:
   `alloc is X`, `alloc isnt X`, `or`, …), the classes that `alloc_by`, the containers, `$(…)` and the static object literal
   write into headers as `CelloGen.Cfg.stamps`.  The model evaluates exactly these terms (Cello/Config.lean `sitesFire`). -/
+
+/-- every guard statement of every `#if CELLO_*_CHECK == 1` block is in the table of guards (function, macro, condition,
+    exception), under a macro the NDEBUG block defines; and only `CELLO_ALLOC_CHECK` guards read the allocation class — the
+    guards of the other families (NULL, MAGIC, BOUND, METHOD, MEMORY) treat objects of every class alike -/
+theorem C18_guards_enumerated :
+    (checkBlocks.map (fun b => (b.stmts.filter (fun k => k == .guardRaise)).length)).sum = guards.length ∧
+    (∀ g ∈ guards, g.guardMacro ∈ usedCheckMacros) ∧
+    (∀ g ∈ guards, g.guardMacro ≠ "CELLO_ALLOC_CHECK" → GExpr.readsClass g.cond = false) := by
+  decide +kernel
 
 /-- the four allocation classes of the model are the enumerators of Cello.h, with pairwise distinct values (so `alloc is X`
     tells the classes apart) -/
